@@ -202,7 +202,7 @@ class Eng(object):
         subs = sorted(x.encode() for x in set.__iter__(c.subscriptions)) if c is not None and hasattr(c, 'subscriptions') else []
         st = 'pc=%s conn=%d stop=%d ubuf=%d subs=[%s]' % (
             pc, 1 if getattr(c, 'connected', False) else 0, 1 if getattr(c, 'stopped', False) else 0,
-            len(c.unpacker.buf) if c is not None and hasattr(c, 'unpacker') else 0, ','.join(hexf(x) for x in subs))
+            compat.unconsumed(c.unpacker) if c is not None and hasattr(c, 'unpacker') else 0, ','.join(hexf(x) for x in subs))
         self.lines.append(';'.join(self.cur) + ' | ' + st)
         self.cur = []
         sk = getattr(c, 's', None)
